@@ -22,8 +22,15 @@ static OpType OpOf(const std::string& s) {
   return OpType::Intersect;
 }
 
+static bool gGeneric = false;   // --generic: the named lattice transforms are replaced by generic (irrational) ones
 static Manifold ApplyT(const Manifold& m, const std::string& g) {
   if (g == "none") return m;
+  if (gGeneric) {
+    if (g == "RZ") return m.Rotate(17.3, -8.9, 41.7);
+    if (g == "RX") return m.Rotate(-23.1, 5.3, 12.9);
+    if (g == "MX") return m.Mirror({0.8, 0.36, -0.48});
+    if (g == "TXP") return m.Translate({0.37, -0.21, 0.13}).Scale({1.0, 1.1, 0.95});
+  }
   if (g == "RZ") return m.Rotate(0, 0, 90);
   if (g == "RX") return m.Rotate(90, 0, 0);
   if (g == "RY") return m.Rotate(0, 90, 0);
@@ -102,7 +109,42 @@ struct ExprRunner {
     if (!why.empty() && why != "non-finite tolerance") fail("manifold", {{"node", what}, {"why", why}});
   }
 
+  // general position: the same expression built lazily and eagerly must denote the same solid
+  void runGeneric(const json& t) {
+    auto eval = [&](bool eagerly, MeshGL64& g, double& vol, Manifold::Error& st) {
+      Builder b{eagerly};
+      std::optional<Manifold> sharedM;
+      const json* body = &t;
+      if (t["k"] == "let") {
+        sharedM.emplace(b.build(t["def"], true));
+        b.shared = &*sharedM;
+        body = &t["body"];
+      }
+      Manifold root = b.build(*body, true);
+      g = root.GetMeshGL64();
+      vol = root.Volume();
+      st = root.Status();
+    };
+    MeshGL64 g1, g2;
+    double v1, v2;
+    Manifold::Error s1, s2;
+    eval(false, g1, v1, s1);
+    eval(true, g2, v2, s2);
+    if (s1 != s2) fail("status", {{"lazy", ErrName(s1)}, {"eager", ErrName(s2)}});
+    if (std::fabs(v1 - v2) > 1e-8 * std::max(1.0, std::fabs(v1))) fail("volume", {{"lazy", v1}, {"eager", v2}, {"why", "lazy and eager volumes differ"}});
+    uint32_t seed = 12345;
+    auto rnd = [&]() { seed = seed * 1664525u + 1013904223u; return (seed >> 8) / double(1 << 24); };
+    for (int i = 0; i < 60; i++) {
+      vec3 p(6 * rnd() - 3, 6 * rnd() - 3, 6 * rnd() - 3);
+      if (DistToMesh(g1, p) < 1e-6 || DistToMesh(g2, p) < 1e-6) continue;
+      const double w1 = WindingAt(g1, p), w2 = WindingAt(g2, p);
+      if (std::lround(w1) != std::lround(w2) || std::fabs(w1 - std::round(w1)) > 1e-6)
+        fail("cells", {{"p", {p.x, p.y, p.z}}, {"lazy", w1}, {"eager", w2}, {"why", "point classified differently by the lazily and the eagerly built solid"}});
+    }
+  }
+
   void run(const json& t) {
+    if (gGeneric) { runGeneric(t); return; }
     Builder b{eager};
     std::optional<Manifold> sharedM;
     const json* body = &t;
@@ -167,6 +209,7 @@ int ExprMain(int argc, char** argv) {
   auto trees = ReadNdjson(args.pos[0]);
   Out out(args.pos[1]);
   const long from = args.num("from", 0);
+  gGeneric = args.has("generic");
   long nfail = 0, nontrivial = 0;
   for (long i = from; i < (long)trees.size(); i++) {
     out.line({{"begin", i}});
